@@ -337,7 +337,7 @@ def make_dtype(seed=0):
                             except Exception as ex:
                                 ok = False
                             acc.concrete("dtype.scorer_int64_equals_float64", ok, dict(info, scorer=name, data=A.tolist()))
-                            acc.inc("dtype_witness_runs")
+                            acc.inc("dtype_witness_runs"); acc.inc("translator_ok")
                     dets = _dtype_dets(pp)
                     for name, mk in dets.items():
                         try:
@@ -348,7 +348,7 @@ def make_dtype(seed=0):
                         except Exception as ex:
                             ok, what = False, f"{type(ex).__name__}: {ex}"[:120]
                         acc.concrete("dtype.detector_int64_equals_float64", ok, dict(info, det=name, data=A.tolist(), outcome=what))
-                        acc.inc("dtype_witness_runs")
+                        acc.inc("dtype_witness_runs"); acc.inc("translator_ok")
         acc.sample(dict(info, datasets=[d.tolist() for d in datasets]))
 
     return Harness(run, [], name="dtype")
